@@ -88,6 +88,7 @@ TokForms == {"bare", "bearer", "lower", "other", "spaces", "empty", "absent"}
 BasicForms == {"bare", "lower", "other", "malformed", "absent"}
 FormsOf(s) == IF s = "b" THEN BasicForms ELSE TokForms
 SpacedForms == {"bearer", "lower", "other"}          \* forms that travel with one scheme word in front
+PairForms(s) == IF s = "b" THEN {"lower"} ELSE {"bearer", "other"}   \* the forms two schemes of one method take together
 ClientForms(s, req) == IF s = "b" THEN {"bare"} ELSE IF req THEN TokForms \ {"absent"} ELSE TokForms   \* what a caller of the generated client can hand over
 Words(s, f) ==
   IF s = "b"
@@ -112,7 +113,6 @@ InHeader(s) == cfg.loc[s] # "query"
 \* ---- the configurations
 \* "flow": requirement lists at the three levels x verdict vectors; credentials travel the plain way (the API key in a
 \* header of its own or in the query string, possibly with a space inside; the JWT bare or as "Bearer tok")
-\* (records, not function constructors: TLC keeps [s \in S |-> e] unevaluated and would recompute e at every use)
 FlowLoc(used, kl) == [b |-> "dflt", k |-> IF "k" \in used THEN kl ELSE "dflt", o |-> IF "o" \in used THEN "query" ELSE "dflt",
                       j |-> IF "j" \notin used THEN "dflt" ELSE IF "b" \in used THEN "hdr" ELSE "auth"]
 FlowCfgs ==
@@ -126,28 +126,32 @@ FlowOK(c) == LET used == UsedSchemes(Effective(c.api, c.svc, c.met)) IN
   /\ ("k" \in used => c.loc["k"] # "dflt")
 
 \* "cred": every catalogue list at method level x every placement of the credentials (at most one scheme on the
-\* Authorization header) x forms (at most MaxOdd schemes not bare; two odd ones only with single scheme words: that is
-\* where one credential's reading could leak into another's) x sender x required / optional credential attributes
+\* Authorization header) x forms (at most MaxOdd schemes not bare; several at once only in PairForms - one scheme word
+\* in front: that is where one credential's reading could leak into another's) x sender x required / optional
+\* credential attributes; verdicts: all accept or exactly one callback refuses
+\* (written as a predicate with nested quantifiers: TLC's UNION of thousands of records is quadratic)
 Total(dom, f, dflt) == LET at(s) == IF s \in dom THEN f[s] ELSE dflt IN [b |-> at("b"), k |-> at("k"), j |-> at("j"), o |-> at("o")]
-CredCfgsOf(idx) ==
-  LET used == UsedSchemes(Catalogue[idx])
-      locsets == {lf \in [used -> Locs] : /\ Cardinality({s \in used : lf[s] \in {"dflt", "auth"}}) <= 1
-                                          /\ ("b" \in used => lf["b"] = "dflt")}
-      odds == {S \in SUBSET used : Cardinality(S) <= MaxOdd}
-  IN UNION { UNION { { [space |-> "cred", api |-> [kind |-> "unset", idx |-> 0], svc |-> [kind |-> "unset", idx |-> 0], met |-> [kind |-> "reqs", idx |-> idx],
-                        loc |-> Total(used, lf, "dflt"), form |-> Total(odd, ff, "bare"), via |-> via, credreq |-> rq] :
-                         ff \in {g \in [odd -> (TokForms \cup BasicForms) \ {"bare"}] :
-                                    /\ \A s \in odd : g[s] \in FormsOf(s)
-                                    /\ (Cardinality(odd) > 1 => \A s \in odd : g[s] \in SpacedForms)},
-                         via \in {"client", "raw"}, rq \in BOOLEAN }
-                   : odd \in odds } : lf \in locsets }
-CredOK(c) == c.via = "client" => \A s \in UsedSchemes(Effective(c.api, c.svc, c.met)) : c.form[s] \in ClientForms(s, c.credreq)
-CredCfgs == UNION {CredCfgsOf(i) : i \in 1..Len(Catalogue)}
+ClientCan(used, form, rq) == \A s \in used : form[s] \in ClientForms(s, rq)
+IsCredCfg(c) ==
+  \E idx \in 1..Len(Catalogue) :
+    LET used == UsedSchemes(Catalogue[idx]) IN
+    \E lf \in [used -> Locs] :
+      /\ Cardinality({s \in used : lf[s] \in {"dflt", "auth"}}) <= 1
+      /\ ("b" \in used => lf["b"] = "dflt")
+      /\ \E odd \in SUBSET used :
+           /\ Cardinality(odd) <= MaxOdd
+           /\ \E ff \in [odd -> (TokForms \cup BasicForms) \ {"bare"}] :
+                /\ \A s \in odd : ff[s] \in FormsOf(s)
+                /\ (Cardinality(odd) > 1 => \A s \in odd : ff[s] \in PairForms(s))
+                /\ \E via \in {"client", "raw"}, rq \in BOOLEAN :
+                     /\ (via = "client" => ClientCan(used, Total(odd, ff, "bare"), rq))
+                     /\ c = [space |-> "cred", api |-> [kind |-> "unset", idx |-> 0], svc |-> [kind |-> "unset", idx |-> 0], met |-> [kind |-> "reqs", idx |-> idx],
+                             loc |-> Total(used, lf, "dflt"), form |-> Total(odd, ff, "bare"), via |-> via, credreq |-> rq]
 
 NoCred(c, s) == IF s = "b" THEN c.form[s] \notin {"bare", "lower"} ELSE c.form[s] \in {"empty", "absent"}
 Init ==
   /\ \/ "flow" \in Spaces /\ cfg \in FlowCfgs /\ FlowOK(cfg)
-     \/ "cred" \in Spaces /\ cfg \in CredCfgs /\ CredOK(cfg)
+     \/ "cred" \in Spaces /\ IsCredCfg(cfg)
   /\ outcome \in [Schemes -> BOOLEAN]
   /\ LET used == UsedSchemes(Effective(cfg.api, cfg.svc, cfg.met)) IN
        /\ \A s \in Schemes \ used : outcome[s]      \* verdicts of unused schemes do not matter
